@@ -12,6 +12,8 @@ import (
 
 func init() {
 	vHarnesses["H_C05_text"] = H_C05_text
+	vHarnesses["H_C05_deep"] = H_C05_deep
+	vHarnesses["H_C05_load"] = H_C05_load
 	vHarnesses["H_C05_exhaust"] = H_C05_exhaust
 	vHarnesses["H_C05_compose"] = H_C05_compose
 	vHarnesses["H_C05_literals"] = H_C05_literals
@@ -166,6 +168,67 @@ func H_C05_exhaust(inst int) {
 	verify(!isPanicResidue(sols.Err()), "residue of a recovered Go panic")
 	sols.Close()
 	reach("c05/exhaust", true)
+}
+
+// c05Loads: file systems (in memory) whose texts load themselves or each other, and the goal that starts loading.
+var c05Loads = []struct {
+	fs   c13FS
+	goal string
+}{
+	{c13FS{"a.pl": ":- ensure_loaded(a).\nfa(1).\n"}, "ensure_loaded(a)."},
+	{c13FS{"a.pl": ":- consult(a).\nfa(1).\n"}, "consult(a)."},
+	{c13FS{"a.pl": ":- ensure_loaded(b).\nfa(1).\n", "b.pl": ":- ensure_loaded(a).\nfb(1).\n"}, "consult(a)."},
+	{c13FS{"a.pl": ":- [b].\nfa(1).\n", "b.pl": ":- [a].\nfb(1).\n"}, "[a]."},
+	{c13FS{"a.pl": ":- ensure_loaded(b), ensure_loaded(b).\n", "b.pl": "fb(1).\n"}, "consult(a), consult(a), consult(b)."},
+	{c13FS{"a.pl": ":- initialization(ensure_loaded(a)).\nfa(1).\n"}, "consult(a)."},
+	{c13FS{"a.pl": ":- ensure_loaded(missing).\n"}, "consult(a)."},
+	{c13FS{"a.pl": "fa(.\n"}, "consult(a), consult(a)."},
+}
+
+// H_C05_load: loading texts that load themselves or each other returns (an answer or an error term): no death, no hang.
+func H_C05_load(inst int) {
+	c := c05Loads[inst]
+	note("goal", c.goal)
+	i := newFull()
+	i.FS = c.fs
+	panicked := false
+	var err error
+	func() {
+		defer func() {
+			if r := recover(); r != nil {
+				panicked = true
+			}
+		}()
+		err = i.QuerySolution(c.goal).Err()
+	}()
+	verify(!panicked, "a Go panic escaped a load")
+	verify(!isPanicResidue(err), "a load returned the residue of a recovered Go panic")
+	reach("c05/load", true)
+}
+
+// c05Deep: programs that recurse without end THROUGH a control construct or a meta-call. Not terminating is what they
+// mean; what the property forbids is that the host process dies of it.
+var c05Deep = []struct{ prog, goal string }{
+	{"p :- \\+ p.", "p."},
+	{"p :- findall(_, p, _).", "p."},
+	{"p :- catch(p, _, true).", "p."},
+	{"p :- call(p), true.", "p."},
+	{"p :- ( p -> true ; true ).", "p."},
+	{"p(X) :- p(f(X)).", "p(a)."},
+	{"p :- p, true.", "p."},
+	{"p :- bagof(_, p, _).", "p."},
+}
+
+// H_C05_deep: goal inst on a program that recurses without end; death_only: a native run that keeps running is what the
+// program means, the death of the process is the violation.
+func H_C05_deep(inst int) {
+	c := c05Deep[inst]
+	note("program", c.prog+" ?- "+c.goal)
+	i := newFull()
+	verify(i.Exec(c.prog) == nil, "harness: program does not load")
+	sol := i.QuerySolution(c.goal)
+	verify(!isPanicResidue(sol.Err()), "residue of a recovered Go panic")
+	reach("c05/deep", true)
 }
 
 // H_C05_compose: the term built by producer inst is handed to every consumer (engine.VH_C05_compose).
